@@ -9,7 +9,7 @@ from ..algebra import Extractor, Rat, Unsupported
 from ..core import Ctx
 from ..model import dotted, norm, walk_no_nested
 from . import nbk
-from .common import assigned_value, expand_locals, prog
+from .common import assigned_value, check_segment_verbatim, expand_locals, prog
 from .kernels import SharedKernel, concrete_dissimilarities, extract_d, extract_d_mat
 
 TIME_ATTRS = {"start", "end", "duration", "bound_inf", "bound_sup", "bounds", "minTime", "maxTime"}
@@ -48,6 +48,7 @@ def run(ctx: Ctx):
                         "invariance of gamma itself under time scaling (the samplers work in absolute time units; only the delta_empty clause is claimed for gamma)"]
     ctx.assumptions += ["delta_empty > 0, scale factor > 0", "durations are end - start (pyannote Segment), so they are translation invariant and scale with the times"]
     M, p = ctx.model, prog(ctx)
+    check_segment_verbatim(ctx, "R-C09-3")      # the times the kernels see are the times given to add(): no absolute grid in between
     # ---------------- R-C09-1 / R-C09-2 on the kernels
     seen = set()
     for c in concrete_dissimilarities(M):
